@@ -57,6 +57,44 @@ def integrity_violations(k, own_ip=None, server_tun_ip=None):
     return viol, stats
 
 
+def reassembly_conservation(k, cname):
+    """Hooked state at quiescent points: while the client is sending upstream packet s, the bytes the server has put together
+    for packet s are never more than the client has handed out so far (its position in the packet plus the chunk under way).
+    More means some bytes were appended twice - mis-reassembly, whether or not zlib's checksum later throws the packet away."""
+    viol = []
+    st = {"reassembly_points_compared": 0}
+    cst = None
+    cstart = None            # (seq, time the client began that packet)
+    srow = None
+    ssince = 0               # time at which the server's reassembly last began a packet (sequence number changed / length fell)
+    for ev in k.log:
+        if ev[1] != "wait":
+            continue
+        kw = ev[3]
+        if ev[2] == cname and "cstate" in kw:
+            cst = kw["cstate"]
+            if len(cst) >= 14 and (cstart is None or cstart[0] != cst[3]):
+                cstart = (cst[3], ev[0])
+        elif ev[2] == "srv" and "rows" in kw and cst is not None and len(cst) >= 14:
+            uid = cst[13]
+            if not (0 <= uid < len(kw["rows"])):
+                continue
+            row = kw["rows"][uid]
+            if srow is None or row["in_seq"] != srow["in_seq"] or row["in_len"] < srow["in_len"]:
+                ssince = ev[0]
+            srow = row
+            if cst[11] != 1 or cst[5] <= 0:          # not DNS mode / no upstream packet in progress
+                continue
+            if row["in_seq"] != cst[3] or cstart is None or ssince < cstart[1]:
+                continue                              # the server is (still) on another packet
+            st["reassembly_points_compared"] += 1
+            sent = cst[6] + cst[7]
+            if row["in_len"] > sent and not viol:
+                viol.append((ev[0], "the server has put together %d bytes of upstream packet %d while the client has handed out only %d (position %d + chunk of %d under way)"
+                             % (row["in_len"], cst[3], sent, cst[6], cst[7])))
+    return viol, st
+
+
 def scn(params):
     cfg = params["cfg"]
     seed = params["seed"]
@@ -131,6 +169,11 @@ def scn(params):
                                       "%s wrote a %d-byte frame to its tun that nobody else ever read from a tun" % (who, len(w)),
                                       {"seed": seed, "cfg": cfg, "time_us": ts, "frame": w.hex()[:400],
                                        "negotiated": t.neg}))
+        if cfg.get("snaps") and len(t.clients) == 1:
+            rv, rst = reassembly_conservation(k, t.clients[0].name)
+            out["stats"].update(rst)
+            for (ts, what) in rv[:1]:
+                out["violations"].append(("C01:mis-reassembled:server", what, {"seed": seed, "cfg": cfg, "time_us": ts, "negotiated": t.neg}))
         # health is recorded, not judged here (C05/C06/C02 judge it)
         dead = [p.name + "=" + t.sim.health(p) for p in [t.srv] + t.clients if not p.alive()]
         if dead:
@@ -192,6 +235,8 @@ def run(ctx):
             cfg["nclients"] = 3
             cfg["tun"] = rng.choice(["10.9.0.2/27", "10.9.0.3/27", "10.9.0.3/24", "10.9.0.2/28", "172.20.0.3/16", "10.9.0.4/27"])
             cfg["raw"] = False
+        if cfg["nclients"] == 1 and not cfg["raw"]:
+            cfg["snaps"] = True        # single DNS-mode session: the reassembly-conservation monitor compares both ends' transfer state
         plist.append({"idx": i, "seed": ctx.seed * 100000 + i, "cfg": cfg})
     if ctx.replay:
         plist = [ctx.replay["witness"]["params"]]
